@@ -516,7 +516,9 @@ func FuzzC20(f *testing.F) {
 		f.Add(s)
 	}
 	f.Fuzz(func(t *testing.T, s string) {
-		if err := ev.Guard(func() error { return oracleC20(c20Case{Kind: "free", Free: s}) }); err != nil {
+		c := c20Case{Kind: "free", Free: s}
+		if err := ev.Guard(func() error { return oracleC20(c) }); err != nil {
+			ev.FuzzFail("C20", "words", c, err)
 			t.Fatal(err)
 		}
 	})
